@@ -133,6 +133,47 @@ def build_tree(tree):
     raise ValueError(op)
 
 
+def table_of(obj):
+    """(node table, root index) of a live expression, preserving object sharing (by identity)."""
+    index = {}
+    nodes = []
+
+    def visit(o):
+        key = id(o)
+        if key in index:
+            return index[key]
+        cls = type(o).__name__
+        try:
+            if cls == "Variable":
+                node = {"op": cls, "name": o.name}
+            elif cls == "Constant":
+                node = {"op": cls, "value": o.value}
+            else:
+                kids = [visit(k) for k in children_of(o)]
+                node = {"op": cls, "kids": kids}
+                if cls in lib.PARAM_N:
+                    node["n"] = o._parameter
+                elif cls in lib.PARAM_BASE:
+                    node["base"] = o._parameter
+                elif cls not in lib.NARY and cls not in lib.BINARY and cls not in lib.UNARY:
+                    raise WalkerUnavailable(f"unknown class {cls}")
+        except AttributeError as e:
+            raise WalkerUnavailable(str(e))
+        nodes.append(node)
+        index[key] = len(nodes) - 1
+        return index[key]
+    root = visit(obj)
+    return nodes, root
+
+
+def build_table(nodes, root):
+    """Fresh objects from a node table, sharing preserved; returns the root object."""
+    live = []
+    for node in nodes:
+        live.append(node_construct(node, [live[k] for k in node.get("kids", ())]))
+    return live[root]
+
+
 def tree_to_json(tree):
     op = tree[0]
     if op == "Variable":
